@@ -26,7 +26,7 @@ import copy
 import json
 import logging
 from collections.abc import Iterable
-from typing import Mapping, Any, Generator
+from typing import Mapping, Any, Generator, Sequence
 
 logger = logging.getLogger(__name__)
 
@@ -413,6 +413,32 @@ class SourceMapBuilder:
             if macro_mapping.return_addr is not None and macro_mapping.return_addr <= new_op_offset:
                 macro_mapping.return_addr = new_op_offset + 1
             self._mappings_macros[new_op_offset] = macro_mapping
+        return self
+
+    def keep_macro_call_positions(self, routine_op_offsets: Sequence[Sequence[int]]) -> SourceMapBuilder:
+        """
+        The position of a macro call is stored with the first opcode of the call. If that opcode did not make it into
+        the result (a jump that turned out to be redundant), the first opcode of the same call that did takes it over.
+        routine_op_offsets: the offsets of the opcodes of the result, per routine.
+        """
+        for offsets in routine_op_offsets:
+            left = set(offsets)
+            for removed_offset, removed in sorted(self._mappings_macros.items()):
+                if removed.called_in is None or removed_offset in left:
+                    continue
+                for offset in offsets:
+                    mapping = self._mappings_macros.get(offset)
+                    if (
+                        offset > removed_offset
+                        and mapping is not None
+                        and mapping.macro_name == removed.macro_name
+                        and mapping.relpath_included_file == removed.relpath_included_file
+                        and mapping.return_addr == removed.return_addr
+                    ):
+                        if mapping.called_in is None:
+                            mapping.called_in = removed.called_in
+                            removed.called_in = None
+                        break
         return self
 
     def add_position_mark(self, position_mark: SourceMapPositionMark) -> SourceMapBuilder:
